@@ -27,10 +27,16 @@ static void install(const Config &cfg, const Bytes &img) {
     if (cfg.cs == 2) memcpy(M().mem + cfg.place, &s, 4); else { uint16_t s16 = (uint16_t)s; memcpy(M().mem + cfg.place, &s16, 2); }
 }
 
+// the caller may stage the data to store in the instance's own auxiliary buffer (a fetch-modify-store cycle through the scratch memory):
+// fault kinds 20/21 (= 0/1 with that aliasing) place the new part there whenever it fits
+static const uint8_t *staged(const Case &c, Instance &in, const Bytes &newpart) {
+    if (c.fkind >= 20 && in.aux && c.cfg.aux >= (long)newpart.size() && !newpart.empty()) { memcpy(in.aux, newpart.data(), newpart.size()); return in.aux; }
+    return newpart.data();
+}
 static PersistentAccess do_op(const Case &c, Instance &in, const Bytes &newpart, uint8_t *dst) {
     switch (c.op) {
-    case 0: return persistent_store(&in.st, newpart.data());
-    case 1: return persistent_store_part(&in.st, newpart.data(), c.off, c.len);
+    case 0: return persistent_store(&in.st, staged(c, in, newpart));
+    case 1: return persistent_store_part(&in.st, staged(c, in, newpart), c.off, c.len);
     case 2: return persistent_validate(&in.st);
     case 3: return persistent_fetch(dst, &in.st);
     case 4: return persistent_fetch_part(dst, &in.st, c.off, c.len);
@@ -99,13 +105,13 @@ static void run_fault(const Case &c) {
     M().clear_run();
     if (persistent_validate(&in.st) != PERSISTENT_ACCESS_SUCCESS) { F(c, "harness:previous-image-invalid", "the installed previous image does not validate"); return; }
     M().clear_run();
-    M().fault_at = c.point; M().fault_kind = c.fkind % 10;
+    M().fault_at = c.point; M().fault_kind = c.fkind % 10;   // 10..: re-entrant driver, 20..: source staged in the aux buffer
     // fault kinds 10..14: as 0..4, but the driver is re-entrant: before it answers the faulty call it validates a second, valid record
     // (a mirror kept behind the instance's region on the same medium) through the library - successfully
     static PersistentStorage *mirror_st; static PersistentAccess mirror_rc;
     Config mc = c.cfg; mc.place = c.cfg.data_addr() + (uint32_t)c.cfg.size + 16; mc.aux = -1; mc.order = 0;
     std::unique_ptr<Instance> mirror;
-    if (c.fkind >= 10) {
+    if (c.fkind >= 10 && c.fkind < 20) {
         uint32_t lo = M().lo, hi = M().hi;
         Bytes mimg(mc.size); for (size_t i = 0; i < mimg.size(); i++) mimg[i] = (uint8_t)(0x41 + 3 * i);
         memcpy(M().mem + mc.data_addr(), mimg.data(), mc.size);
@@ -119,7 +125,7 @@ static void run_fault(const Case &c) {
     vp::Block dst(c.cfg.size + 1);
     PersistentAccess rc;
     if (VP_BUDGET(64 + 8 * c.cfg.size)) { rc = do_op(c, in, newpart, dst.p); vp::budget().armed = false; } else { F(c, "no-progress", "operation keeps calling the medium after a fault"); return; }
-    if (c.fkind >= 10 && M().nested_ran && mirror_rc != PERSISTENT_ACCESS_SUCCESS) { F(c, "harness:mirror-invalid", "the mirror record does not validate"); return; }
+    if (c.fkind >= 10 && c.fkind < 20 && M().nested_ran && mirror_rc != PERSISTENT_ACCESS_SUCCESS) { F(c, "harness:mirror-invalid", "the mirror record does not validate"); return; }
     vp::count();
     if (!M().fault_hit) { vp::stats().dontcare++; return; }
     if (rc != PERSISTENT_ACCESS_IO_ERROR) { F(c, "not-reported", vp::fmt("medium call %ld %s but the operation returned %d instead of IO_ERROR", c.point, c.fkind % 10 == 0 ? "failed" : "transferred short", (int)rc)); return; }
@@ -167,13 +173,14 @@ static void run_config(const Config &cfg, uint64_t seed, bool thorough) {
         std::set<long> idxs;
         if (calls <= 64) for (long k = 0; k < (long)calls; k++) idxs.insert(k);
         else for (long k : {0L, 1L, 2L, (long)calls / 2, (long)calls - 2, (long)calls - 1}) idxs.insert(k);
-        for (long k : idxs) for (int kind : {0, 1, 2, 3, 4, 10, 11}) {
-            if (kind >= 10 && (uint64_t)cfg.data_addr() + 2 * cfg.size + 64 > MSIZE) continue;
+        for (long k : idxs) for (int kind : {0, 1, 2, 3, 4, 10, 11, 20, 21}) {
+            if (kind >= 20 && (c.op > 1 || cfg.aux < (long)(c.op == 0 ? cfg.size : c.len))) continue;
+            if (kind >= 10 && kind < 20 && (uint64_t)cfg.data_addr() + 2 * cfg.size + 64 > MSIZE) continue;
             c.point = k; c.fkind = kind; run_fault(c);
             if (k > 0) vp::nontrivial(vp::fnv(serc(c)));
             if (vp::want_sample()) vp::sample(serc(c));
         }
-        vp::cls(std::string("fault-points:") + opn[c.op], idxs.size() * 7);
+        vp::cls(std::string("fault-points:") + opn[c.op], idxs.size() * 9);
     }
 }
 
